@@ -27,11 +27,14 @@ LEVEL_TEXT = ("Coq theorems over the reals about the executable Gallina model of
               "chain of splits at the first interior knot of what is left, in order, the last piece has no interior knot, all pieces keep the "
               "degree; [G] (exact knot comparison, tol = 0) the step of decompose_curve - splitting a valid sorted start-clamped curve at its "
               "first interior knot of multiplicity 1..p - is never rejected and cuts off a Bezier piece (degree p, p+1 control points, knot "
-              "vector p+1 zeros + p+1 ones). PARTIAL / not proved: the loop count (pieces = number of distinct interior knots + 1, "
-              "C07_decompose_count_full is stated, checked by computation on one instance; it needs the loop invariant on the right piece), "
-              "the same structure theorems for surfaces, and the "
-              "coincidence of every piece with the original under the affine domain map (consequence of C04 + window locality) are tied by the "
-              "exact oracle (Fraction evaluation of original vs. piece on all knots and interval interior points) and the correspondence check only. "
+              "vector p+1 zeros + p+1 ones). Round 2 (Proofs/Split{Local,Coincide,Count,Surf}.v), all [G]: an interior split is never rejected; "
+              "BOTH PIECES COINCIDE WITH THE ORIGINAL curve under the affine map of the piece's normalised domain, any degree, split parameter "
+              "inside a span or on a knot of any multiplicity <= p, every coordinate (C04 insertion theorem + locality at a knot of full "
+              "multiplicity + affine invariance of the Cox-de Boor functions); surfaces split in u and in v likewise; decomposition never runs out "
+              "of fuel, returns exactly (number of distinct interior knots + 1) Bezier pieces, in order, each coinciding with the original on "
+              "its interval.  The count statement needs degree >= 1, interior multiplicities <= p and a tolerance that does not merge distinct "
+              "knots; without them it is false in the model (C07_decompose_count_full_refuted, witness degree 0).  NOT proved: decompose_surface "
+              "(u, v, uv) - only the single surface splits are; tied by the exact oracle and the correspondence. "
               "'Input not modified' holds trivially in the functional model and is checked on the implementation by the oracle.")
 LEVEL_NOTE = ("The model is tied to /repo by the sampled correspondence check (tolerance 1e-9). The geometric coincidence of pieces and original "
               "is checked exactly on every generated case by the oracle, not proved in general.")
